@@ -219,7 +219,8 @@ pub trait Check: Sync {
     fn work(&self, tier: Tier) -> Vec<WorkItem>;
     fn run_case(&self, sh: &mut Shard, case: &CaseId);
     fn shard_timeout_s(&self, tier: Tier) -> u64 {
-        tier.pick(300, 3600)
+        // generous: a firing watchdog is only ever inconclusive, and a loaded machine must not make it fire
+        tier.pick(900, 4 * 3600)
     }
     fn nshards(&self, _tier: Tier) -> u64 {
         16
